@@ -6,10 +6,20 @@
 //   D : Interval<double, Floating_Point_Box_Interval_Info>  (binary64, open bounds, value infinities)
 //   F : Interval<float, Floating_Point_Box_Interval_Info>   (binary32)
 //   L : Interval<long double, Floating_Point_Box_Interval_Info>  (x87 extended, 64-bit significand)
+//   b B h i l : Interval<int8_t | uint8_t | int16_t | int32_t | int64_t, Native_Integer_Box_Interval_Info>
+//               (the interval types of Int8_Box ... of interfaces/interfaced_boxes.hh; only with --types)
 // Journal (stdout), one event per line:   <id> <ty> <op> <I> <J> <R> <ok>
 // Bounds are printed exactly (doubles through mpq_class(double)).
 //
-// usage: c12_interval --seed N --random N [--types QZD] [--only op]
+// --adj 1 : direct events of Boundary_NS::adjust_boundary (own batch):
+//   <id> <ty> adj:<L|U>:<open>:<numeric r> <x> - <x'>,<special>,<open bit>,<numeric returned Result> 1
+//   <id> <ty> adjop:<L|U>:<op>:<open> <x1> <x2|-> <x'>,<special>,<open bit>,<numeric returned Result> 1
+//     (the code r comes from the real checked operation <op>_assign_r(to = poison, x1, x2, ROUND_DOWN|ROUND_UP))
+//
+// --box N : N chains of Int8_Box::affine_image on 2-dim boxes (own batch):
+//   <id> b box:<k>:<a>:<b>:<c>:<d> <I0>;<I1> - <R0>;<R1>|E <ok>       x_k := (a*x0 + b*x1 + c) / d
+//
+// usage: c12_interval --seed N --random N [--types QZD] [--only op] [--adj 1] [--box N]
 #include "ppl.hh"
 #include "interfaced_boxes.hh"
 #include "common.hh"
@@ -24,6 +34,12 @@ typedef Interval<mpz_class, Z_Box_Interval_Info> ZI;
 typedef Interval<double, Floating_Point_Box_Interval_Info> DI;
 typedef Interval<float, Floating_Point_Box_Interval_Info> FI;
 typedef Interval<long double, Floating_Point_Box_Interval_Info> LI;
+// native bounded integers: exactly the interval types of Int8_Box, Uint8_Box, Int16_Box, Int32_Box, Int64_Box
+typedef Interval<int8_t, Native_Integer_Box_Interval_Info> I8I;
+typedef Interval<uint8_t, Native_Integer_Box_Interval_Info> U8I;
+typedef Interval<int16_t, Native_Integer_Box_Interval_Info> I16I;
+typedef Interval<int32_t, Native_Integer_Box_Interval_Info> I32I;
+typedef Interval<int64_t, Native_Integer_Box_Interval_Info> I64I;
 
 // ---- a bound of a template: value (as a rational), open flag, or infinite
 struct TB { bool inf; mpq_class v; bool open; };
@@ -84,11 +100,56 @@ template <> struct Tr<LI> {
   }
 };
 
+
+// ---- native bounded integers
+// The raw stored value of a boundary whose SPECIAL bit is set is unspecified; the harness makes it a
+// fixed "poison" (lower 0x55.., upper 0xAA.. / 0x2A) so that a boundary the library forgets to mark
+// SPECIAL shows up as a deterministic stale value.
+template <typename T> struct NatPoison {
+  static T lo() { return static_cast<T>(0x5555555555555555ULL); }
+  static T hi() { return std::numeric_limits<T>::is_signed ? static_cast<T>(0xAAAAAAAAAAAAAAAAULL) : static_cast<T>(0x2A); }
+};
+template <typename T> std::string show_native(T v) {
+  return std::numeric_limits<T>::is_signed ? std::to_string(static_cast<long long>(v))
+                                           : std::to_string(static_cast<unsigned long long>(v));
+}
+#define NATIVE_TR(ITV, T, LETTER) \
+template <> struct Tr<ITV> { \
+  static const char* name() { return LETTER; } \
+  static const bool can_open = false; \
+  static T conv(const mpq_class& q) { \
+    mpz_class z; mpz_fdiv_q(z.get_mpz_t(), q.get_num_mpz_t(), q.get_den_mpz_t()); \
+    return std::numeric_limits<T>::is_signed ? static_cast<T>(z.get_si()) : static_cast<T>(z.get_ui()); } \
+  static std::string show(T v) { return show_native<T>(v); } \
+};
+NATIVE_TR(I8I, int8_t, "b")
+NATIVE_TR(U8I, uint8_t, "B")
+NATIVE_TR(I16I, int16_t, "h")
+NATIVE_TR(I32I, int32_t, "i")
+NATIVE_TR(I64I, int64_t, "l")
+#undef NATIVE_TR
+
+// per-type switches of the shared machinery
+template <typename ITV> struct NatTr {
+  static const bool native = false;
+  static const bool cc76 = true;                     // the stop points -2..2 are representable
+  static void poison(ITV&) {}
+  static void prep(ITV&) {}
+};
+template <typename T> struct NatTr<Interval<T, Native_Integer_Box_Interval_Info> > {
+  typedef Interval<T, Native_Integer_Box_Interval_Info> ITV;
+  static const bool native = true;
+  static const bool cc76 = std::numeric_limits<T>::is_signed;
+  static void poison(ITV& z) { z.lower() = NatPoison<T>::lo(); z.upper() = NatPoison<T>::hi(); }
+  static void prep(ITV& z) { z.assign(UNIVERSE); poison(z); }
+};
+
 template <typename ITV, typename V>
 ITV make_raw(bool empty, bool lo_inf, const V& lo, bool lo_open, bool hi_inf, const V& hi, bool hi_open) {
   ITV x;
   if (empty) { x.assign(EMPTY); return x; }
   x.assign(UNIVERSE);
+  NatTr<ITV>::poison(x);
   if (!lo_inf) {
     x.info().clear_boundary_properties(LOWER);
     x.lower() = lo;
@@ -137,10 +198,10 @@ void run_pair(Out& o, const ITV& x, const ITV& y, bool unary_too, bool wrap_ops,
   const std::string sx = show_itv(x), sy = show_itv(y);
   ITV z;
   if (unary_too) {
-    if (o.want("neg")) { z.assign(UNIVERSE); z.neg_assign(x); o.ev("neg", sx, "-", show_itv(z), z.OK()); }
-    if (o.want("assign")) { z.assign(EMPTY); z.assign(x); o.ev("assign", sx, "-", show_itv(z), z.OK()); }
+    if (o.want("neg")) { z.assign(UNIVERSE); NatTr<ITV>::poison(z); z.neg_assign(x); o.ev("neg", sx, "-", show_itv(z), z.OK()); }
+    if (o.want("assign")) { z.assign(EMPTY); NatTr<ITV>::poison(z); z.assign(x); o.ev("assign", sx, "-", show_itv(z), z.OK()); }
   }
-#define BIN(NAME, CALL) if (o.want(NAME)) { z.assign(UNIVERSE); z.CALL(x, y); o.ev(NAME, sx, sy, show_itv(z), z.OK()); }
+#define BIN(NAME, CALL) if (o.want(NAME)) { z.assign(UNIVERSE); NatTr<ITV>::poison(z); z.CALL(x, y); o.ev(NAME, sx, sy, show_itv(z), z.OK()); }
   BIN("add", add_assign)
   BIN("sub", sub_assign)
   BIN("mul", mul_assign)
@@ -162,7 +223,7 @@ void run_pair(Out& o, const ITV& x, const ITV& y, bool unary_too, bool wrap_ops,
       nm = std::string("run:") + REL_NAMES[r];
       if (o.want(nm)) { z = x; z.refine_universal(RELS[r], y); o.ev(nm, sx, sy, show_itv(z), z.OK()); }
     }
-    if (o.want("cc76") && !x.is_empty() && !y.is_empty() && x.contains(y)) {
+    if (NatTr<ITV>::cc76 && o.want("cc76") && !x.is_empty() && !y.is_empty() && x.contains(y)) {
       // stop points -2 -1 0 1 2 (sorted), as the tests of Box::CC76_widening_assign pass them
       typedef typename ITV::boundary_type V;
       V stops[5] = { Tr<ITV>::conv(mpq_class(-2)), Tr<ITV>::conv(mpq_class(-1)), Tr<ITV>::conv(mpq_class(0)),
@@ -281,6 +342,44 @@ template <> struct RandGen<LI> {
   }
 };
 
+// native bounded integers: the whole range, strongly biased to the limits, to -2..2, to small values, to
+// the magnitudes whose sums / products fall next to the limits
+template <typename T> T rand_native(pplv::Rng& r) {
+  const T mn = std::numeric_limits<T>::min(), mx = std::numeric_limits<T>::max();
+  const bool sg = std::numeric_limits<T>::is_signed;
+  const int bits = std::numeric_limits<T>::digits + (sg ? 1 : 0);
+  switch (r.below(20)) {
+    case 0: case 1: case 2: return static_cast<T>(mn + static_cast<T>(r.below(3)));
+    case 3: case 4: case 5: return static_cast<T>(mx - static_cast<T>(r.below(3)));
+    case 6: case 7: case 8: case 9: return sg ? static_cast<T>(r.range(-2, 2)) : static_cast<T>(r.range(0, 4));
+    case 10: case 11: case 12: return sg ? static_cast<T>(r.range(-12, 12)) : static_cast<T>(r.range(0, 24));
+    case 13: case 14: {                     // about sqrt(max): products next to the limits
+      long long root = 1LL << (std::numeric_limits<T>::digits / 2);
+      long long v = root + r.range(-3, 3);
+      if (r.chance(1, 2)) v = (v * 181) / 128;      // * sqrt(2)
+      if (sg && r.chance(1, 2)) v = -v;
+      return static_cast<T>(v);
+    }
+    case 15: case 16: {                     // about half the limits: sums next to the limits
+      T h = r.chance(1, 2) || !sg ? static_cast<T>(mx / 2) : static_cast<T>(mn / 2);
+      return static_cast<T>(h + static_cast<T>(r.range(sg ? -2 : 0, 2)));
+    }
+    case 17: {                              // max / small: quotients and products by small factors
+      T d = static_cast<T>(r.range(2, 7));
+      T v = static_cast<T>((r.chance(1, 2) || !sg ? mx : mn) / d);
+      return static_cast<T>(v + static_cast<T>(r.range(0, 1)));
+    }
+    default: { (void)bits; return static_cast<T>(r.next()); }       // any bit pattern of the type
+  }
+}
+#define NATIVE_RG(ITV, T) template <> struct RandGen<ITV> { static T val(pplv::Rng& r) { return rand_native<T>(r); } };
+NATIVE_RG(I8I, int8_t)
+NATIVE_RG(U8I, uint8_t)
+NATIVE_RG(I16I, int16_t)
+NATIVE_RG(I32I, int32_t)
+NATIVE_RG(I64I, int64_t)
+#undef NATIVE_RG
+
 template <typename ITV>
 ITV random_itv(pplv::Rng& r) {
   typedef typename ITV::boundary_type V;
@@ -298,14 +397,15 @@ ITV random_itv(pplv::Rng& r) {
 }
 
 template <typename ITV>
-void run_type(const std::vector<mpq_class>& vals, long seed, long nrandom, const char* only, bool wraps) {
+void run_type(const std::vector<mpq_class>& vals, long seed, long nrandom, const char* only, bool wraps,
+              bool tmpl_all_ops = true) {
   typedef typename ITV::boundary_type V;
   Out o(Tr<ITV>::name(), only);
   std::vector<ITV> T = templates<ITV>(vals);
   o.J.line(std::string("# ") + Tr<ITV>::name() + " templates=" + std::to_string(T.size()));
   for (size_t i = 0; i < T.size(); ++i)
     for (size_t j = 0; j < T.size(); ++j)
-      run_pair(o, T[i], T[j], j == 0, wraps, true);
+      run_pair(o, T[i], T[j], j == 0, wraps, tmpl_all_ops);
   if (wraps) {
     // width 2 on the small templates, all quadrant refinements; width 8 around the 2^w boundary
     V z0 = Tr<ITV>::conv(mpq_class(0));
@@ -344,6 +444,7 @@ void run_type(const std::vector<mpq_class>& vals, long seed, long nrandom, const
   // chains: a computed result (whatever bits it carries) is an operand of the next operation
   for (long k = 0; k < nrandom / 2; ++k) {
     ITV x = random_itv<ITV>(rng), y = random_itv<ITV>(rng), w = random_itv<ITV>(rng), t;
+    NatTr<ITV>::prep(t);
     switch (rng.below(7)) {
       case 0: t.add_assign(x, y); break;
       case 1: t.sub_assign(x, y); break;
@@ -393,6 +494,150 @@ int run_one(const std::string& op, const std::string& si, const std::string& sj)
   else
     run_pair(o, x, y, true, false, true);
   return 0;
+}
+
+// ---- Boundary_NS::adjust_boundary directly, T native, Info = Native_Integer_Box_Interval_Info
+typedef Native_Integer_Box_Interval_Info NInfo;
+
+// x is overwritten by the call (it is not, for any code: adjust_boundary never writes the value)
+template <typename T>
+std::string adj_call(bool upper, bool open, Result r, T& x) {
+  NInfo info;
+  info.clear();
+  const Boundary_NS::Boundary_Type bt = upper ? Boundary_NS::UPPER : Boundary_NS::LOWER;
+  Result ret = Boundary_NS::adjust_boundary(bt, x, info, open, r);
+  return show_native<T>(x) + "," + (info.get_boundary_property(bt, Boundary_NS::SPECIAL) ? "1" : "0") + ","
+    + (info.get_boundary_property(bt, Boundary_NS::OPEN) ? "1" : "0") + "," + std::to_string(static_cast<int>(ret));
+}
+
+// the codes the checked layer (destination policy Check_Overflow_Policy<T>) can return for a side
+static std::vector<Result> adj_codes(bool upper) {
+  std::vector<Result> v;
+  if (!upper) {
+    v = { V_EQ, V_GT, V_GE, V_GT_SUP, V_GT_MINUS_INFINITY, V_GT_MINUS_INFINITY | V_UNREPRESENTABLE,
+          V_EQ_MINUS_INFINITY, V_EQ_MINUS_INFINITY | V_UNREPRESENTABLE };
+  }
+  else {
+    v = { V_EQ, V_LT, V_LE, V_LT_INF, V_LT_PLUS_INFINITY, V_LT_PLUS_INFINITY | V_UNREPRESENTABLE,
+          V_EQ_PLUS_INFINITY, V_EQ_PLUS_INFINITY | V_UNREPRESENTABLE };
+  }
+  return v;
+}
+
+static bool adj_code_allowed(bool upper, int r) {
+  std::vector<Result> v = adj_codes(upper);
+  for (size_t i = 0; i < v.size(); ++i) if (static_cast<int>(v[i]) == r) return true;
+  return false;
+}
+
+static const char* ADJ_OPS[6] = {"add", "sub", "mul", "div", "neg", "assign"};
+
+// the real checked operation on raw T with the rounding direction of the side
+template <typename T>
+Result adj_checked(const std::string& op, bool upper, T& to, T x1, T x2) {
+  const Rounding_Dir dir = upper ? ROUND_UP : ROUND_DOWN;
+  if (op == "add") return add_assign_r(to, x1, x2, dir);
+  if (op == "sub") return sub_assign_r(to, x1, x2, dir);
+  if (op == "mul") return mul_assign_r(to, x1, x2, dir);
+  if (op == "div") return div_assign_r(to, x1, x2, dir);
+  if (op == "neg") return neg_assign_r(to, x1, dir);
+  return assign_r(to, x1, dir);
+}
+
+template <typename T>
+void adj_one(Out& o, bool upper, bool open, int r) {
+  T x = upper ? NatPoison<T>::hi() : NatPoison<T>::lo();
+  const std::string before = show_native<T>(x);
+  const std::string res = adj_call<T>(upper, open, static_cast<Result>(r), x);
+  o.ev(std::string("adj:") + (upper ? "U" : "L") + ":" + (open ? "1" : "0") + ":" + std::to_string(r), before, "-", res, true);
+}
+
+template <typename T>
+void adjop_one(Out& o, bool upper, const std::string& op, bool open, T x1, T x2, bool unary) {
+  T to = upper ? NatPoison<T>::hi() : NatPoison<T>::lo();
+  Result r = adj_checked<T>(op, upper, to, x1, x2);
+  const std::string res = adj_call<T>(upper, open, r, to);
+  o.ev(std::string("adjop:") + (upper ? "U" : "L") + ":" + op + ":" + (open ? "1" : "0"),
+       show_native<T>(x1), unary ? std::string("-") : show_native<T>(x2), res, true);
+}
+
+template <typename T>
+void run_adj(const char* ty, const std::vector<long>& grid) {
+  Out o(ty, "");
+  o.n = 800000000;                               // ids disjoint from those of run_type
+  for (int up = 0; up < 2; ++up)
+    for (int open = 0; open < 2; ++open) {
+      std::vector<Result> codes = adj_codes(up);
+      for (size_t k = 0; k < codes.size(); ++k) adj_one<T>(o, up, open, static_cast<int>(codes[k]));
+    }
+  for (int up = 0; up < 2; ++up)
+    for (int open = 0; open < 2; ++open)
+      for (int k = 0; k < 6; ++k) {
+        const std::string op = ADJ_OPS[k];
+        const bool unary = k >= 4;
+        for (size_t a = 0; a < grid.size(); ++a) {
+          if (unary) { adjop_one<T>(o, up, op, open, static_cast<T>(grid[a]), static_cast<T>(0), true); continue; }
+          for (size_t b = 0; b < grid.size(); ++b) {
+            if (op == "div" && grid[b] == 0) continue;
+            adjop_one<T>(o, up, op, open, static_cast<T>(grid[a]), static_cast<T>(grid[b]), false);
+          }
+        }
+      }
+  o.J.line(std::string("# ") + ty + " adj events=" + std::to_string(o.n - 800000000));
+}
+
+// replay of one adj / adjop event:  --one "<ty> adj:<L|U>:<open>:<r> <x> -"  /  "<ty> adjop:<L|U>:<op>:<open> <x1> <x2|->"
+template <typename T>
+int run_one_adj(const char* ty, const std::string& op, const std::string& si, const std::string& sj) {
+  Out o(ty, "");
+  std::vector<std::string> f;
+  { std::istringstream is(op); std::string t; while (std::getline(is, t, ':')) f.push_back(t); }
+  if (f.size() != 4) return 3;
+  const bool upper = f[1] == "U";
+  if (f[0] == "adj") {
+    const int r = atoi(f[3].c_str());
+    if (!adj_code_allowed(upper, r)) return 3;   // any other code is the PPL_UNREACHABLE label
+    adj_one<T>(o, upper, f[2] == "1", r);
+    return 0;
+  }
+  if (f[0] != "adjop") return 3;
+  const bool unary = sj == "-";
+  const long long a = atoll(si.c_str()), b = unary ? 0 : atoll(sj.c_str());
+  if (f[2] == "div" && b == 0) return 3;
+  adjop_one<T>(o, upper, f[2], f[3] == "1", static_cast<T>(a), static_cast<T>(b), unary);
+  return 0;
+}
+
+// ---- Box<Interval<int8_t, Native_Integer_Box_Interval_Info>> (Int8_Box): chains of affine_image on 2-dim boxes
+// near the limits.   <id> b box:<k>:<a>:<b>:<c>:<d> <I0>;<I1> - <R0>;<R1> | E <ok>
+//   ( x_k := (a*x0 + b*x1 + c) / d )
+static std::string show_box(const Int8_Box& bx) {
+  if (bx.is_empty()) return "E";
+  return show_itv(bx.get_interval(Variable(0))) + ";" + show_itv(bx.get_interval(Variable(1)));
+}
+static void run_box(long seed, long n) {
+  Out o("b", "");
+  o.n = 700000000;
+  pplv::Rng rng((uint64_t)seed * 15485863u + 5u);
+  for (long k = 0; k < n; ++k) {
+    Int8_Box bx(2);
+    for (int v = 0; v < 2; ++v) {
+      I8I itv;
+      int tries = 0;       // mostly bounded intervals: the overflow then comes from the arithmetic
+      do { itv = random_itv<I8I>(rng); }
+      while (itv.is_empty() || ((itv.lower_is_boundary_infinity() || itv.upper_is_boundary_infinity()) && ++tries < 4));
+      bx.set_interval(Variable(v), itv);
+    }
+    for (int step = 0; step < 3 && !bx.is_empty(); ++step) {
+      const long var = rng.below(2), a = rng.range(-2, 2), b = rng.range(-2, 2), c = rng.range(-3, 3);
+      long d = rng.chance(2, 3) ? 1 : (rng.chance(1, 2) ? 2 : -1);
+      const std::string before = show_box(bx);
+      bx.affine_image(Variable(var), a * Variable(0) + b * Variable(1) + c, d);
+      o.ev("box:" + std::to_string(var) + ":" + std::to_string(a) + ":" + std::to_string(b) + ":" + std::to_string(c) + ":"
+           + std::to_string(d), before, "-", show_box(bx), bx.OK());
+    }
+  }
+  o.J.line("# b box events=" + std::to_string(o.n - 700000000));
 }
 
 // ---- Linear_Form<Interval<double,...>>: operator+, operator-, operator*(C, f) against the list model
@@ -454,25 +699,44 @@ static void probes() {
   }
 }
 
+template <typename T>
+std::vector<mpq_class> native_vals() {
+  const long mn = std::numeric_limits<T>::min(), mx = std::numeric_limits<T>::max();
+  std::vector<mpq_class> v = {mpq_class(mn), mpq_class(mn + 1), mpq_class(-2), mpq_class(-1), mpq_class(0), mpq_class(1),
+                              mpq_class(2), mpq_class(mx - 1), mpq_class(mx)};
+  return v;
+}
+
 int main(int argc, char** argv) {
   long seed = pplv::arg_long(argc, argv, "--seed", 1);
   long nrandom = pplv::arg_long(argc, argv, "--random", 300);
   const char* types = pplv::arg_str(argc, argv, "--types", "QZDFL");
   const char* only = pplv::arg_str(argc, argv, "--only", "");
   const char* one = pplv::arg_str(argc, argv, "--one", "");
+  const long adj = pplv::arg_long(argc, argv, "--adj", 0);
+  const long nbox = pplv::arg_long(argc, argv, "--box", 0);
   if (*one) {
     std::istringstream is(one);
     std::string ty, op, si, sj;
     is >> ty >> op >> si >> sj;
     return pplv::run_batches(0, 2, [&](long b) {
       if (b == 0) { probes(); return; }
-      int rc = ty == "Q" ? run_one<QI>(op, si, sj) : ty == "Z" ? run_one<ZI>(op, si, sj) : ty == "D" ? run_one<DI>(op, si, sj)
-             : ty == "F" ? run_one<FI>(op, si, sj) : ty == "L" ? run_one<LI>(op, si, sj) : 3;
+      int rc = 3;
+      if (op.compare(0, 3, "adj") == 0) {
+        rc = ty == "b" ? run_one_adj<int8_t>("b", op, si, sj) : ty == "B" ? run_one_adj<uint8_t>("B", op, si, sj)
+           : ty == "l" ? run_one_adj<int64_t>("l", op, si, sj) : 3;
+      }
+      else
+      rc = ty == "Q" ? run_one<QI>(op, si, sj) : ty == "Z" ? run_one<ZI>(op, si, sj) : ty == "D" ? run_one<DI>(op, si, sj)
+             : ty == "F" ? run_one<FI>(op, si, sj) : ty == "L" ? run_one<LI>(op, si, sj)
+             : ty == "b" ? run_one<I8I>(op, si, sj) : ty == "B" ? run_one<U8I>(op, si, sj) : ty == "h" ? run_one<I16I>(op, si, sj)
+             : ty == "i" ? run_one<I32I>(op, si, sj) : ty == "l" ? run_one<I64I>(op, si, sj) : 3;
       if (rc) _exit(rc);
     }, 60);
   }
-  // batch 0: probes; 1: Q; 2: Z; 3: D; 4: F  (each in its own child: a crash is attributed to the type)
-  return pplv::run_batches(0, 6, [&](long b) {
+  // batch 0: probes; 1: Q; 2: Z; 3: D; 4: F; 5: L; 6..10: b B h i l; 11: adjust_boundary; 12: Int8_Box chains
+  // (each in its own child: a crash is attributed to the type)
+  return pplv::run_batches(0, 13, [&](long b) {
     if (b == 0) { probes(); return; }
     std::vector<mpq_class> v;
     if (b == 1 && strchr(types, 'Q')) {
@@ -496,6 +760,39 @@ int main(int argc, char** argv) {
       v = {mpq_class(-3), mpq_class(-0.1), mpq_class(0), mpq_class(1.0 / 3.0), mpq_class(2)};
       // values near 2^±16000 make exact rational arithmetic slow on the Lean side: fewer random pairs
       run_type<LI>(v, seed, nrandom / 25, only, false);
+    }
+    // native bounded integers: no wrap operators; the three wide types run only the arithmetic operators,
+    // neg / assign and join / meet / difference on the template pairs
+    if (b == 6 && strchr(types, 'b')) {
+      v = {mpq_class(-128), mpq_class(-127), mpq_class(-2), mpq_class(-1), mpq_class(0), mpq_class(1), mpq_class(2),
+           mpq_class(126), mpq_class(127)};
+      run_type<I8I>(v, seed, nrandom, only, false, true);
+    }
+    if (b == 7 && strchr(types, 'B')) {
+      v = {mpq_class(0), mpq_class(1), mpq_class(2), mpq_class(3), mpq_class(254), mpq_class(255)};
+      run_type<U8I>(v, seed, nrandom, only, false, true);
+    }
+    if (b == 8 && strchr(types, 'h')) {
+      v = native_vals<int16_t>();
+      run_type<I16I>(v, seed, nrandom, only, false, false);
+    }
+    if (b == 9 && strchr(types, 'i')) {
+      v = native_vals<int32_t>();
+      run_type<I32I>(v, seed, nrandom, only, false, false);
+    }
+    if (b == 10 && strchr(types, 'l')) {
+      v = native_vals<int64_t>();
+      run_type<I64I>(v, seed, nrandom, only, false, false);
+    }
+    if (b == 12 && nbox > 0) run_box(seed, nbox);
+    if (b == 11 && adj) {
+      std::vector<long> g8 = {-128, -127, -2, -1, 0, 1, 2, 126, 127};
+      std::vector<long> gu8 = {0, 1, 2, 3, 254, 255};
+      std::vector<long> g64 = {std::numeric_limits<long>::min(), std::numeric_limits<long>::min() + 1, -2, -1, 0, 1, 2,
+                               std::numeric_limits<long>::max() - 1, std::numeric_limits<long>::max()};
+      run_adj<int8_t>("b", g8);
+      run_adj<uint8_t>("B", gu8);
+      run_adj<int64_t>("l", g64);
     }
   }, 280);
 }
